@@ -11,7 +11,8 @@ import Okane.Model.Book
 * `asOf` : `partition_point(|(d, _)| d <= date)` followed by `rates[bound - 1]`.
 * `priceTable` : `compute_price_table`, a work-list algorithm.  **The pop choice (`pick`) and the order in which
   the neighbours of a node are visited (`ord`) are parameters**: they stand for `BinaryHeap`'s order (a max-heap
-  on `Distance`, ties resolved by heap layout) and for `HashMap` iteration order.  Theorems quantify over both.
+  on `Distance`, ties resolved by heap layout) and for the neighbour order (`HashMap` iteration order until fix
+  b2e85da, sorted by commodity name since: the driver's `ordSorted`).  Theorems quantify over both.
 * `Dist` : `Distance {num_ledger_conversions, num_all_conversions, staleness}` with the derived lexicographic order.
 * `convertSingle`, `convertAmount` : the functions of the same name (the `(commodity_with, date)` cache is a pure
   memoisation, modelled separately by `convertSingleCached`).
